@@ -67,9 +67,26 @@ fn base(rng: &mut Rng, thorough: bool) -> Knobs {
             shape = 10;
         }
     }
+    // a rare run is a long churn on very few objects: thousands of store / take /
+    // adopt / unadopt / clone / drop cycles on the same pairs (tombstones, rehash in
+    // place, counters that only move after many operations)
+    let churn = rng.chance(1, 500);
+    if churn {
+        max_objs = 2 + rng.below(3);
+        shape = 0;
+        w(K::New, 1, &mut weights);
+        w(K::Clone, 12, &mut weights);
+        w(K::Drop, 10, &mut weights);
+        w(K::Store, 16, &mut weights);
+        w(K::Take, 14, &mut weights);
+        w(K::Adopt, 4, &mut weights);
+        w(K::Unadopt, 4, &mut weights);
+    }
     Knobs {
         max_objs,
-        walk_len: if structured { rng.below(if thorough { 30 } else { 16 }) } else { 6 + rng.below(if thorough { 54 } else { 34 }) },
+        walk_len: if churn {
+            1000 + rng.below(if thorough { 4000 } else { 2000 })
+        } else if structured { rng.below(if thorough { 30 } else { 16 }) } else { 6 + rng.below(if thorough { 54 } else { 34 }) },
         weights,
         adopt_p: 8,
         elide_p: 0,
